@@ -8,7 +8,8 @@ prop=$1; v=$2; shift 2
 src=${WT_PREFIX:-/tmp/wt-}$prop/SEEDED/$v
 id=${prop}${v}
 out=/verif/seeded/$id
-W=/tmp/wt-verify
+W=/tmp/wt-verify${LANE:+-$LANE}
+export SELFTEST_DIR=/root/scratch/selftest${LANE:+-$LANE}
 export CARGO_NET_OFFLINE=true CARGO_TERM_COLOR=never
 [ -f $src/patch.diff ] || { echo "$id: no patch"; exit 3; }
 if [ ! -d $W ]; then git -C /repo worktree add --detach $W HEAD -q; fi
